@@ -1,14 +1,17 @@
 (* C04 — wire format, model runner and the trace oracle prop_ok. Definitions only.
 
    case  :=  codec_tag codec_arg            0 n = Identity n; 1 0 = UnsignedVarint(None); 2 m = UnsignedVarint(Some m)
-             nops op*                       0 = poll_ready; 1 b len = start_send; 2 = poll_flush; 3 b len = send_framed
-             nw wev*                        write script: 0 = Pending; 1 n = accept up to n bytes / flush ok; 3 = error
+             nops op*                       0 = poll_ready; 1 b len = start_send; 2 = poll_flush; 3 b len = send_framed;
+                                            4 = Sink::poll_close (one poll); 5 = Substream::close(self) (only as the last op)
+             nw wev*                        write script: 0 = Pending; 1 n = accept up to n bytes / flush, shutdown ok; 3 = error
              nraw (byte count)*             raw bytes appended to the reader's wire after what the writer got out
              nr rev*                        read script: 0 = Pending; 1 n = deliver up to n bytes; 2 = end of stream; 3 = error
              npolls                         number of poll_next calls
    message (b, len) = len bytes b, the last one b+1 mod 256 when len >= 2.
-   trace :=  1, then per writer op:  code [npend]  pbytes nframes len* cur+1  sent_total  RLE(newly sent bytes)
-             then per poll_next:     code [RLE(frame)]  buf_len offset cur+1 remaining_wire 0
+   trace :=  1, then per writer op:  code [npend: ops 3, 5]  [pbytes nframes len* cur+1: all but op 5]  sent_total
+                                     RLE(newly sent bytes)  unused_write_events  carrier_shut  wake_ok
+             then per poll_next:     code [RLE(frame)]  buf_len offset cur+1 remaining_wire 0  unused_read_events  wake_ok
+             wake_ok = the call did not answer Pending, or the last carrier call answered Pending with the caller's waker.
              a panic is code 9 and ends the trace.  [0] = malformed case. *)
 From Coq Require Import List NArith Bool.
 From V.common Require Import Wire.
@@ -45,7 +48,17 @@ Definition p_op : parser op :=
   | 1 => let* m := p_msg in pret (OSend m)
   | 2 => pret OFlush
   | 3 => let* m := p_msg in pret (OFramed m)
+  | 4 => pret OClose
+  | 5 => pret OCloseAll
   | _ => pfail
+  end.
+
+Fixpoint close_all_last (ops : list op) : bool :=
+  match ops with
+  | [] => true
+  | [_] => true
+  | OCloseAll :: _ => false
+  | _ :: t => close_all_last t
   end.
 
 Definition p_wev : parser wev :=
@@ -78,6 +91,7 @@ Record tcase := mkCase {
 Definition decode_case (l : list N) : option tcase :=
   pall (let* c := p_codec in
         let* ops := plist p_op in
+        let* _ := pguard (close_all_last ops) in
         let* ws := plist p_wev in
         let* raw := plist p_run in
         let* rs := plist p_rev in
@@ -103,20 +117,24 @@ Definition enc_wstate (w : wstate) : list N :=
   pbytes w :: enc_list (fun f => [lenN f]) (frames w) ++
   [match curf w with Some f => lenN f + 1 | None => 0 end].
 
+Definition has_npend (o : op) : bool := match o with OFramed _ | OCloseAll => true | _ => false end.
+Definition has_state (o : op) : bool := match o with OCloseAll => false | _ => true end.
+
 Fixpoint run_writer (c : codec) (s : sys) (ops : list op) : list N * sys :=
   match ops with
   | [] => ([], s)
   | o :: t =>
       let '((r, np), s1) := step BP c s o in
-      let head := wres_code r :: (match o with OFramed _ => [np] | _ => [] end) in
-      let here := head ++ enc_wstate (ws s1) ++ [lenN (sent s1)] ++
-                  enc_rle (skipn (length (sent s)) (sent s1)) in
+      let head := wres_code r :: (if has_npend o then [np] else []) in
+      let here := head ++ (if has_state o then enc_wstate (ws s1) else []) ++ [lenN (sent s1)] ++
+                  enc_rle (skipn (length (sent s)) (sent s1)) ++
+                  [lenN (wscript s1); b2n (shut s1); 1] in
       let '(rest, s2) := run_writer c s1 t in
       (here ++ rest, s2)
   end.
 
-Definition enc_rstate (st : rstate) (wire : list N) : list N :=
-  [buf_len st; lenN (filled st); enc_opt (cur st); lenN wire; 0].
+Definition enc_rstate (st : rstate) (wire : list N) (script : list rdev) : list N :=
+  [buf_len st; lenN (filled st); enc_opt (cur st); lenN wire; 0; lenN script; 1].
 
 Fixpoint run_polls (polls : nat) (c : codec) (st : rstate) (wire : list N) (script : list rdev) : list N :=
   match polls with
@@ -129,11 +147,112 @@ Fixpoint run_polls (polls : nat) (c : codec) (st : rstate) (wire : list N) (scri
           (match o with
            | RPend => [0] | RClosed => [1] | RFrame f => 2 :: enc_rle f | RFail => [3] | RIoErr => [4]
            | RPanic => [9]
-           end) ++ enc_rstate st1 w1 ++ run_polls p c st1 w1 s1
+           end) ++ enc_rstate st1 w1 s1 ++ run_polls p c st1 w1 s1
       end
   end.
 
+(* ---- end-to-end cases over real yamux substreams (TCP / WebSocket substream types) ----
+   case := T arg nops op* 0 0 0 0,  T = 10 + codec tag (TCP type) | 20 + codec tag (WebSocket type);
+   ops: 1 b len = SinkExt::feed; 2 = SinkExt::flush; 3 b len = send_framed; 4 = SinkExt::close;
+   a reader task drains the accepting side concurrently until the end of the stream.
+   trace := 2, one code per op, number of frames, RLE of every frame, reader's final code (1 = clean end).
+   Messages are kept as (b, len) here: no byte list is built, so sizes of several flow-control
+   windows are fine. What the trace must look like is the executable face of C04_roundtrip,
+   C04_close_sends_nothing and C04_close_after_flush_complete under a fair schedule. *)
+Record eop := mkEop { e_tag : N; e_b : N; e_len : N }.
+
+Definition p_eop : parser eop :=
+  let* tag := pN in
+  match tag with
+  | 1 | 3 => let* b := pN in let* len := pN in
+             let* _ := pguard ((b <=? 255) && (len <=? MAX_LEN)) in pret (mkEop tag b len)
+  | 2 | 4 => pret (mkEop tag 0 0)
+  | _ => pfail
+  end.
+
+Definition decode_e2e (l : list N) : option (codec * list eop) :=
+  pall (let* t := pN in let* arg := pN in
+        let* _ := pguard (((10 <=? t) && (t <=? 12)) || ((20 <=? t) && (t <=? 22))) in
+        let tag := if t <? 20 then t - 10 else t - 20 in
+        let* c := (match tag with
+                   | 0 => let* _ := pguard (arg <=? MAX_LEN) in pret (Identity arg)
+                   | 1 => let* _ := pguard (arg =? 0) in pret (Varint None)
+                   | _ => pret (Varint (Some arg))
+                   end) in
+        let* ops := plist p_eop in
+        let* z1 := pN in let* z2 := pN in let* z3 := pN in let* z4 := pN in
+        let* _ := pguard ((z1 =? 0) && (z2 =? 0) && (z3 =? 0) && (z4 =? 0)) in
+        pret (c, ops)) l.
+
+Definition fits_len (c : codec) (len : N) : bool :=
+  match c with
+  | Identity n => len =? n
+  | Varint None => true
+  | Varint (Some mx) => len <=? mx
+  end.
+
+(* run-length form of message (b, len) *)
+Definition msg_rle (b len : N) : list N :=
+  if len =? 0 then [0]
+  else if len =? 1 then [1; b; 1]
+  else [2; b; len - 1; (b + 1) mod 256; 1].
+
+Definition e2e_code (c : codec) (o : eop) : N :=
+  match e_tag o with
+  | 1 | 3 => if fits_len c (e_len o) then 1 else 2
+  | _ => 1
+  end.
+
+(* frames that reach the peer: feed = poll_ready (a flush when BACKPRESSURE_BOUNDARY bytes are
+   queued) + start_send; flush and send_framed write out everything queued; close writes nothing,
+   so what is still queued then is dropped. q = queued frames (newest first), pb = queued bytes. *)
+Fixpoint e2e_go (c : codec) (ops : list eop) (q : list (list N)) (pb : N) : list (list N) :=
+  match ops with
+  | [] => []
+  | o :: t =>
+      match e_tag o with
+      | 1 =>
+          let flushed := if BP <=? pb then rev q else [] in
+          let q1 := if BP <=? pb then [] else q in
+          let pb1 := if BP <=? pb then 0 else pb in
+          if fits_len c (e_len o)
+          then flushed ++ e2e_go c t (msg_rle (e_b o) (e_len o) :: q1)
+                                 (pb1 + e_len o + match c with Identity _ => 0 | Varint _ => lenN (varint_enc (e_len o)) end)
+          else flushed ++ e2e_go c t q1 pb1
+      | 2 => rev q ++ e2e_go c t [] 0
+      | 3 => rev q ++ (if fits_len c (e_len o) then [msg_rle (e_b o) (e_len o)] else []) ++ e2e_go c t [] 0
+      | _ => e2e_go c t [] 0
+      end
+  end.
+
+Definition e2e_frames (c : codec) (ops : list eop) : list (list N) :=
+  match c with
+  | Identity 0 => []      (* C04_identity_zero: nothing is ever delivered *)
+  | _ => e2e_go c ops [] 0
+  end.
+
+(* yamux announces a stream with its first data frame: when no byte at all is written the
+   accepting side never sees the stream (reader code 8), otherwise it sees a clean end (1) *)
+Definition e2e_fin (c : codec) (ops : list eop) : N :=
+  match c with
+  | Identity 0 => 8
+  | _ => if is_nil (e2e_go c ops [] 0) then 8 else 1
+  end.
+
+Definition run_e2e (c : codec) (ops : list eop) : list N :=
+  2 :: map (e2e_code c) ops ++
+  N.of_nat (length (e2e_frames c ops)) :: concat (e2e_frames c ops) ++ [e2e_fin c ops].
+
+(* every refusal is justified, everything else succeeded, the frames delivered are exactly the
+   accepted messages that were flushed (or sent by send_framed) before the close, in call order,
+   and the reader saw a clean end of stream *)
+Definition e2e_ok (c : codec) (ops : list eop) (trace : list N) : bool :=
+  nlist_eqb trace (run_e2e c ops).
+
+Definition is_e2e (l : list N) : bool := match l with t :: _ => 10 <=? t | [] => false end.
+
 Definition run_case (l : list N) : list N :=
+  if is_e2e l then match decode_e2e l with Some (c, ops) => run_e2e c ops | None => [0] end else
   match decode_case l with
   | Some t =>
       let '(wt, s) := run_writer (t_codec t) (init_sys (t_wscript t)) (t_ops t) in
@@ -150,94 +269,117 @@ Definition p_rle : parser (list N) :=
 
 Record wobs := mkWobs {
   wo_code : N; wo_npend : N; wo_pbytes : N; wo_frames : list N; wo_cur : N;
-  wo_total : N; wo_delta : list N }.
+  wo_total : N; wo_delta : list N; wo_wrem : N; wo_shut : N; wo_wake : N }.
 
-Definition p_wobs (framed : bool) : parser wobs :=
+Definition p_wobs (o : op) : parser wobs :=
   let* code := pN in
   let* _ := pguard (code <=? 4) in
-  let* np := (if framed then pN else pret 0) in
-  let* pb := pN in
-  let* fr := plist pN in
-  let* cu := pN in
+  let* np := (if has_npend o then pN else pret 0) in
+  let* st := (if has_state o
+              then (let* pb := pN in let* fr := plist pN in let* cu := pN in pret (pb, fr, cu))
+              else pret (0, [], 0)) in
   let* tot := pN in
   let* d := p_rle in
-  pret (mkWobs code np pb fr cu tot d).
+  let* wrem := pN in let* sh := pN in let* wk := pN in
+  let '(pb, fr, cu) := st in
+  pret (mkWobs code np pb fr cu tot d wrem sh wk).
 
 Fixpoint p_wtrace (ops : list op) : parser (list wobs) :=
   match ops with
   | [] => pret []
-  | o :: t => let* x := p_wobs (match o with OFramed _ => true | _ => false end) in
-              let* r := p_wtrace t in pret (x :: r)
+  | o :: t => let* x := p_wobs o in let* r := p_wtrace t in pret (x :: r)
   end.
 
 Record robs := mkRobs {
-  ro_code : N; ro_frame : list N; ro_buf : N; ro_off : N; ro_cur : N; ro_rem : N }.
+  ro_code : N; ro_frame : list N; ro_buf : N; ro_off : N; ro_cur : N; ro_rem : N; ro_wake : N }.
 
 Definition p_robs : parser robs :=
   let* code := pN in
   let* _ := pguard (code <=? 4) in
   let* f := (if code =? 2 then p_rle else pret []) in
   let* bl := pN in let* off := pN in let* cu := pN in let* rem := pN in let* pend := pN in
+  let* rrem := pN in let* wk := pN in
   let* _ := pguard (pend =? 0) in
-  pret (mkRobs code f bl off cu rem).
+  pret (mkRobs code f bl off cu rem wk).
 
 (* ---- the oracle ---- *)
 Definition sumN (l : list N) : N := fold_right N.add 0 l.
 Definition is_prefix (a b : list N) : bool := nlist_eqb a (firstn (length a) b).
 
-(* writer: acc = wire bytes of everything accepted so far; total = bytes the carrier has taken;
-   prev = the previous observation (state before the operation). Returns None on a violated
-   requirement, Some (acc', total', broken') otherwise. `broken` = the history has left the
-   property's domain (carrier error, abandoned send_framed, send_framed while sink data is queued). *)
-Definition wstep_ok (c : codec) (o : op) (prev x : wobs) (acc total : list N) (broken : bool)
+(* the write script contains nothing that makes the carrier fail *)
+Definition clean_wscript (ws : list wev) : bool :=
+  forallb (fun e => match e with WErr => false | WChunk n => negb (n =? 0) | WPending => true end) ws.
+
+(* writer: acc = wire bytes of everything handed over so far, in the order of the calls;
+   total = bytes the carrier has taken; prev = the previous observation (state before the operation).
+   Returns None on a violated requirement, Some (acc', total', broken') otherwise. `broken` = a
+   send_framed call ended without Ok / PermissionDenied (error or abandoned future): a partial frame
+   may be on the wire and the caller has been told; nothing further is required of the byte stream. *)
+Definition wstep_ok (c : codec) (clean : bool) (o : op) (prev x : wobs) (acc total : list N) (broken : bool)
   : option (list N * list N * bool) :=
   let total' := total ++ wo_delta x in
   let same_state := (wo_pbytes x =? wo_pbytes prev) && nlist_eqb (wo_frames x) (wo_frames prev) &&
                     (wo_cur x =? wo_cur prev) in
-  let queue_empty := is_nil (wo_frames prev) && (wo_cur prev =? 0) in
+  let queue_empty := is_nil (wo_frames x) && (wo_cur x =? 0) && (wo_pbytes x =? 0) in
   if negb (wo_total x =? lenN total') then None else
+  if negb (wo_wake x =? 1) then None else       (* a Pending answer without a registered waker *)
   if broken then Some (acc, total', true) else
+  (* conservation: the carrier holds a prefix of what was handed over, the rest is queued *)
   let conserve (acc' : list N) :=
       is_prefix total' acc' &&
       (wo_pbytes x =? sumN (wo_frames x) + (wo_cur x - 1)) &&
       (wo_pbytes x + lenN total' =? lenN acc') in
+  let shut_same := wo_shut x =? wo_shut prev in
   match o with
   | OSend m =>
       if fitsb c m then
         let acc' := acc ++ frame c m in
-        if (wo_code x =? 1) && is_nil (wo_delta x) && conserve acc' then Some (acc', total', false) else None
+        if (wo_code x =? 1) && is_nil (wo_delta x) && conserve acc' && shut_same then Some (acc', total', false) else None
       else
-        if (wo_code x =? 2) && is_nil (wo_delta x) && same_state then Some (acc, total', false) else None
+        if (wo_code x =? 2) && is_nil (wo_delta x) && same_state && shut_same then Some (acc, total', false) else None
   | OFlush =>
+      if negb shut_same then None else
       if wo_code x =? 1 then
-        (* flush reported complete: nothing is queued and everything accepted is with the carrier *)
-        if is_nil (wo_frames x) && (wo_cur x =? 0) && (wo_pbytes x =? 0) && nlist_eqb total' acc
-        then Some (acc, total', false) else None
-      else if wo_code x =? 0 then (if conserve acc then Some (acc, total', false) else None)
-      else Some (acc, total', true)
+        (* flush reported complete: nothing is queued and everything handed over is with the carrier *)
+        if queue_empty && nlist_eqb total' acc then Some (acc, total', false) else None
+      else if conserve acc then Some (acc, total', false) else None
   | OReady =>
+      if negb shut_same then None else
       if wo_code x =? 1 then
         if (wo_pbytes x <? BP) && conserve acc then Some (acc, total', false) else None
-      else if wo_code x =? 0 then (if conserve acc then Some (acc, total', false) else None)
-      else Some (acc, total', true)
+      else if conserve acc then Some (acc, total', false) else None
   | OFramed m =>
-      if fitsb c m then
-        if negb queue_empty then Some (acc, total', true) else
-        if wo_code x =? 1 then
-          if nlist_eqb (wo_delta x) (frame c m) && same_state then Some (acc ++ frame c m, total', false) else None
-        else if wo_code x =? 2 then None
-        else if is_prefix (wo_delta x) (frame c m) && same_state then Some (acc, total', true) else None
+      if negb shut_same then None else
+      if wo_code x =? 1 then
+        (* complete: the message fits, it follows everything handed over before it, nothing is queued *)
+        if fitsb c m && queue_empty && nlist_eqb total' (acc ++ frame c m)
+        then Some (acc ++ frame c m, total', false) else None
+      else if wo_code x =? 2 then
+        if negb (fitsb c m) && conserve acc then Some (acc, total', false) else None
       else
-        if (wo_code x =? 2) && is_nil (wo_delta x) && same_state then Some (acc, total', false) else None
+        (* error / abandoned: whatever got out is a prefix of the queued bytes followed by the frame *)
+        if is_prefix total' (acc ++ frame c m) then Some (acc, total', true) else None
+  | OClose =>
+      (* close = shutdown of the carrier: no byte is handed over, the queue is untouched (frames
+         that were only start_send'ed stay unsent); the carrier is shut down iff Ok is reported *)
+      if negb (is_nil (wo_delta x) && same_state && conserve acc) then None else
+      if wo_code x =? 1 then (if wo_shut x =? 1 then Some (acc, total', false) else None)
+      else if shut_same then Some (acc, total', false) else None
+  | OCloseAll =>
+      if negb (is_nil (wo_delta x) && is_prefix total' acc) then None else
+      if (wo_code x =? 1) && clean then
+        (* close(self) completed and the carrier never failed: it has been shut down *)
+        if wo_shut x =? 1 then Some (acc, total', false) else None
+      else Some (acc, total', false)
   end.
 
-Fixpoint wtrace_ok (c : codec) (ops : list op) (obs : list wobs) (prev : wobs) (acc total : list N)
+Fixpoint wtrace_ok (c : codec) (clean : bool) (ops : list op) (obs : list wobs) (prev : wobs) (acc total : list N)
          (broken : bool) : option (list N * list N * bool) :=
   match ops, obs with
   | [], [] => Some (acc, total, broken)
   | o :: ops', x :: obs' =>
-      match wstep_ok c o prev x acc total broken with
-      | Some (acc', total', br') => wtrace_ok c ops' obs' x acc' total' br'
+      match wstep_ok c clean o prev x acc total broken with
+      | Some (acc', total', br') => wtrace_ok c clean ops' obs' x acc' total' br'
       | None => None
       end
   | _, _ => None
@@ -264,15 +406,17 @@ Definition alloc_ok (c : codec) (x : robs) : bool :=
   | Varint None => true
   end.
 
-Definition rtrace_ok (t : tcase) (obs : list robs) (acc total : list N) (broken : bool) : bool :=
+(* the messages whose encoding is (given acc = their concatenated encodings) handed over *)
+Definition rtrace_ok (t : tcase) (obs : list robs) (msgs : list (list N)) (acc total : list N) (broken : bool) : bool :=
   let c := t_codec t in
-  let msgs := accepted c (t_ops t) in
   let fr := flat_map (fun x => if ro_code x =? 2 then [ro_frame x] else []) obs in
   let clean := negb broken && is_nil (t_raw t) in
   let no_err_ev := forallb (fun e => match e with EvErr => false | _ => true end) (t_rscript t) in
   let final_rem := match rev obs with x :: _ => ro_rem x | [] => lenN (total ++ t_raw t) end in
   forallb (fun f => frame_fits c f) fr &&
   forallb (alloc_ok c) obs &&
+  forallb (fun x => ro_wake x =? 1) obs &&
+  (match c with Identity 0 => is_nil fr | _ => true end) &&
   (if clean then
      (* no spurious failure, frames are a prefix of what was sent *)
      forallb (fun x => negb (ro_code x =? 3) && (negb (ro_code x =? 4) || negb no_err_ev)) obs &&
@@ -283,16 +427,35 @@ Definition rtrace_ok (t : tcase) (obs : list robs) (acc total : list N) (broken 
       then msgs_eqb fr msgs else true)
    else if negb broken && nlist_eqb total acc then agree fr msgs else true).
 
-Definition zero_wobs : wobs := mkWobs 1 0 0 [] 0 0 [].
+Definition zero_wobs : wobs := mkWobs 1 0 0 [] 0 0 [] 0 0 1.
+
+(* messages handed over, judged on the observed results: start_send of a fitting message, and
+   send_framed calls that returned Ok *)
+Fixpoint handed (c : codec) (ops : list op) (obs : list wobs) : list (list N) :=
+  match ops, obs with
+  | o :: ops', x :: obs' =>
+      (match o with
+       | OSend m => if fitsb c m then [m] else []
+       | OFramed m => if wo_code x =? 1 then [m] else []
+       | _ => []
+       end) ++ handed c ops' obs'
+  | _, _ => []
+  end.
 
 Definition prop_ok (case trace : list N) : bool :=
+  if is_e2e case then
+    match decode_e2e case with
+    | Some (c, ops) => e2e_ok c ops trace
+    | None => nlist_eqb trace [0]
+    end
+  else
   match decode_case case, trace with
   | Some t, 1 :: body =>
       match pall (let* w := p_wtrace (t_ops t) in
                   let* r := prep (N.to_nat (t_polls t)) p_robs in pret (w, r)) body with
       | Some (w, r) =>
-          match wtrace_ok (t_codec t) (t_ops t) w zero_wobs [] [] false with
-          | Some (acc, total, broken) => rtrace_ok t r acc total broken
+          match wtrace_ok (t_codec t) (clean_wscript (t_wscript t)) (t_ops t) w zero_wobs [] [] false with
+          | Some (acc, total, broken) => rtrace_ok t r (handed (t_codec t) (t_ops t) w) acc total broken
           | None => false
           end
       | None => false     (* includes every trace cut short by a panic *)
@@ -301,5 +464,5 @@ Definition prop_ok (case trace : list N) : bool :=
   | _, _ => false
   end.
 
-(* No known-finding classes for C04: the three defects were repaired (fix: commits). *)
+(* No known-finding classes for C04: the defects found were repaired (fix: commits F-C04a..f). *)
 Definition known_class (case trace : list N) : N := 0.
